@@ -179,9 +179,9 @@ func PlansC07() []nrun.Plan { return plansC07 }
 
 var plansC07 = []nrun.Plan{
 	// The three protocols: k=1 quick, k=3 (time-capped) thorough.
-	{Scenario: scenario07(variant07{name: "G-eager", proto: Eager}), QuickBudget: 1, ThoroughBudget: 3, Weight: 6},
-	{Scenario: scenario07(variant07{name: "G-coop", proto: Coop, useClose: true}), QuickBudget: 1, ThoroughBudget: 3, Weight: 6},
-	{Scenario: scenario07(variant07{name: "G-848", proto: Next}), QuickBudget: 1, ThoroughBudget: 3, Weight: 6},
+	{Scenario: scenario07(variant07{name: "G-eager", proto: Eager}), QuickBudget: 1, ThoroughBudget: 3, Weight: 4},
+	{Scenario: scenario07(variant07{name: "G-coop", proto: Coop, useClose: true}), QuickBudget: 1, ThoroughBudget: 3, Weight: 4},
+	{Scenario: scenario07(variant07{name: "G-848", proto: Next}), QuickBudget: 1, ThoroughBudget: 3, Weight: 4},
 	// Variants: k=1 quick; k=2 (k=3 for the early-leave ones) thorough, smaller share of the time budget.
 	{Scenario: scenario07(variant07{name: "G-eager-early", proto: Eager, early: true, useClose: true}), QuickBudget: 1, ThoroughBudget: 3, Weight: 1},
 	{Scenario: scenario07(variant07{name: "G-coop-early", proto: Coop, early: true}), QuickBudget: 1, ThoroughBudget: 3, Weight: 1},
@@ -202,7 +202,7 @@ var plansC07 = []nrun.Plan{
 func CheckC07() *nrun.Check {
 	return &nrun.Check{
 		ID: "C07", TestName: "TestC07", Plans: plansC07,
-		QuickTime: 90 * time.Second, ThorTime: 18 * time.Minute,
+		QuickTime: 120 * time.Second, ThorTime: 18 * time.Minute,
 		Rule: strings.Join([]string{
 			"engine N, scenario family G: members A, B (C) of group g over topic t (3 partitions) as separate real kgo clients against kfake, one scenario per protocol (eager/range, cooperative-sticky, KIP-848)",
 			"script: A joins and owns t; B joins; A polls; B leaves (LeaveGroup or Close); A polls until it owns t again; variants: B AddConsumeTopics(t2), a partition added to t, B leaving inside the join rebalance, a third member",
